@@ -28,3 +28,15 @@ def install():
     IM = repo.mod('src.initial_mesh')
     simset.install(IM)
     _installed[0] = True
+
+
+ALL = ('src.mesh', 'src.parametrization', 'src.quadrature', 'src.norms',
+       'src.initial_mesh', 'src.single_layer', 'src.initial_potential',
+       'src.error_estimator', 'src.hierarchical_error_estimator',
+       'src.h_h2_error_estimator', 'problems')
+
+
+def preload():
+    install()
+    for m in ALL:
+        repo.mod(m)
